@@ -1,5 +1,5 @@
 (** C19, second model: CPodesIntegratorRep::stepTo (SimTKmath/Integrators/src/CPodesIntegrator.cpp, after the
-    committed fix 83252531 of the stale fake stop time).  [CPodes::step] is the oracle.  The model follows the
+    committed fixes 83252531 (stale fake stop time) and 6114e029 (stale savedY)).  [CPodes::step] is the oracle.  The model follows the
     code statement by statement; it is written to show which clauses of C19 the wrapper keeps and which it
     does not (DESIGN 7.18 b).  No proofs in this file. *)
 From Coq Require Import QArith List Bool Arith.
@@ -65,7 +65,7 @@ Definition after_cstep (c:cfg) (report sched tMax:Q) (s:cst) (res:cres) (tret0:Q
     else match res with
     | CRoot =>
         CReturn ReachedEventTrigger
-          (upd s RetWithEvent (c_tAdv s) tret true (Some CSuccess) (c_prevRet s) (c_saved s) tret (c_prevRet s) (projInterp c))
+          (upd s RetWithEvent (c_tAdv s) tret true (Some CSuccess) (c_prevRet s) false tret (c_prevRet s) (projInterp c))
     | CTstop =>
         if usePending
         then CReturn EndOfSimulation
@@ -121,6 +121,10 @@ Definition set_flags (s:cst) (cm:comm) (ip ci:bool) (pend:option cres) (ts:optio
      c_pending := pend; c_prevRet := c_prevRet s; c_saved := c_saved s; c_rootLo := c_rootLo s; c_rootHi := c_rootHi s;
      c_tLow := c_tLow s; c_tHigh := c_tHigh s; c_intProj := c_intProj s; c_tstop := ts |}.
 
+(** savedY.resize(0) *)
+Definition clear_saved (s:cst) : cst :=
+  upd s (c_comm s) (c_tAdv s) (c_tInterp s) (c_interp s) (c_pending s) (c_prevRet s) false (c_tLow s) (c_tHigh s) (c_intProj s).
+
 Definition stepToC (c:cfg) (s:cst) (report sched:Q) (orc:list cstep)
   : cresult (status * cst * list cstep * list cuse) :=
   match c_comm s with
@@ -129,7 +133,7 @@ Definition stepToC (c:cfg) (s:cst) (report sched:Q) (orc:list cstep)
     if (match c_comm s with RetNoEvent => ge_final c (tStateC s) | _ => false end)
     then COk (EndOfSimulation, set_flags s FinalReturned false (c_startCI s) (c_pending s) (c_tstop s), orc, [])
     else if c_startCI s
-    then COk (StartOfContinuousInterval, set_flags s (c_comm s) (c_interp s) false None (c_tstop s), orc, [])
+    then COk (StartOfContinuousInterval, clear_saved (set_flags s (c_comm s) (c_interp s) false None (c_tstop s)), orc, [])
     else
       let tMax := qmin report sched in
       let isFake := negb (allowInterp c) && match finalT c with None => true | Some f => qlt tMax f end in
